@@ -173,6 +173,31 @@ def graph(idx, fi):
 
 # -------------------------------------------------------------------------------------------------
 
+def _writes_after_yield(idx, fi, with_stmt):
+    """Every context manager of the `with` is a call of a generator-based context manager of the class whose stores and mutating
+    calls all come after its (single, top-level) `yield`, and which has no try / finally around the yield."""
+    for item in with_stmt.items:
+        c = item.context_expr
+        if not (isinstance(c, ast.Call) and isinstance(c.func, ast.Attribute) and isinstance(c.func.value, ast.Name) and
+                c.func.value.id in ("self", "cls") and fi.cls is not None):
+            return False
+        h = idx.lookup_method(fi.cls, c.func.attr)
+        if h is None or not any(d.endswith("contextmanager") for d in h.decorators):
+            return False
+        body = [s_ for s_ in h.node.body if not (isinstance(s_, ast.Expr) and isinstance(s_.value, ast.Constant))]
+        yi = [i for i, s_ in enumerate(body) if isinstance(s_, ast.Expr) and isinstance(s_.value, ast.Yield)]
+        if len(yi) != 1 or any(isinstance(x, (ast.Yield, ast.YieldFrom)) for i, s_ in enumerate(body) if i != yi[0] for x in ast.walk(s_)):
+            return False
+        for s_ in body[:yi[0]]:
+            for x in ast.walk(s_):
+                if isinstance(x, (ast.Attribute, ast.Subscript)) and isinstance(x.ctx, (ast.Store, ast.Del)):
+                    return False
+                if isinstance(x, ast.Call) and isinstance(x.func, ast.Attribute) and x.func.attr in (
+                        "append", "add", "update", "pop", "insert", "extend", "remove", "clear", "setdefault", "freeze"):
+                    return False
+    return True
+
+
 def atomic(rep, rule, idx, fi, verified=(), enumerate_paths=False, _depth=0, roots=OBSERVABLE):
     """Validate-before-mutate: no raise point is reachable after a mutation of observable state.  (`roots`: what counts as
     observable -- for a constructor only the objects handed in, the half-built instance is dropped with the exception.)"""
@@ -221,6 +246,13 @@ def atomic(rep, rule, idx, fi, verified=(), enumerate_paths=False, _depth=0, roo
                     continue
         after = g.reachable([s for s, lab in g.succ[m] if lab != "exc"])
         bad = sorted(r for r in raisers if r in after and not (r == m))
+        # `with self._recording(x): <body>` where _recording is a @contextmanager generator that does all its writing *after* its
+        # `yield`: the writes happen when the body has completed normally; an exception in the body passes through the yield
+        # and nothing after it runs.  Raise points inside the body therefore come *before* these writes.
+        wnode = g.nodes[m]
+        if wnode.kind == "with" and isinstance(wnode.ast, ast.With) and _writes_after_yield(idx, fi, wnode.ast):
+            inside = {id(x) for b_ in wnode.ast.body for x in ast.walk(b_)}
+            bad = [r for r in bad if not (g.nodes[r].ast is not None and id(g.nodes[r].ast) in inside)]
         for r in bad:
             rs = raisers[r][0]
             rep.bad(rule, fi.site, fg.text(r),
